@@ -400,6 +400,25 @@ func (h *handler) processUnaryRpc(
 		Metadata: internal.ToKeyValue(sts.GetTrailers()),
 	}
 
+	var respBody *goatorepo.Body
+	var data mem.BufferSlice
+
+	if resp != nil {
+		data, err = h.codec.Marshal(resp)
+
+		if err == nil {
+			respBody = &goatorepo.Body{
+				Data: data.Materialize(),
+			}
+		} else if appErr == nil {
+			// A reply which cannot be sent is a failure, for the caller and
+			// for the stats handlers, not a response without body or status.
+			appErr = status.Errorf(codes.Internal, "grpc: error while marshaling: %v", err)
+		}
+	} else if appErr == nil {
+		appErr = status.Error(codes.Internal, "grpc: handler returned neither reply nor error")
+	}
+
 	var respStatus *goatorepo.ResponseStatus
 
 	if appErr != nil {
@@ -411,19 +430,6 @@ func (h *handler) processUnaryRpc(
 			Code:    st.Proto().GetCode(),
 			Message: st.Proto().GetMessage(),
 			Details: st.Proto().GetDetails(),
-		}
-	}
-
-	var respBody *goatorepo.Body
-	var data mem.BufferSlice
-
-	if resp != nil {
-		data, err = h.codec.Marshal(resp)
-
-		if err == nil {
-			respBody = &goatorepo.Body{
-				Data: data.Materialize(),
-			}
 		}
 	}
 
